@@ -21,6 +21,7 @@ Definition args_ok (o : op) : Prop :=
   | OShrink n | OShrinkLT n | OXF n | OXB n | OXFB n | OXBB n | OXFC n | OXBC n
   | OPushB n | OPushF n | OMTo n | OMFrom n | OPTo n | OTrunc n | OPushBA n | OPushFA n => 0 <= n
   | OXFV n N | OXBV n N => 0 <= n /\ 0 <= N
+  | OXFO n sl rf2 | OXBO n sl rf2 => 0 <= n /\ 0 <= sl /\ 0 <= rf2
   | OSlice c o N => 0 <= c /\ 0 <= o /\ 0 <= N
   | OMToV sh n | OMFromV sh n | OPToV sh n | OPFromV sh n => shape_ok sh /\ 0 <= n
   | _ => True
@@ -68,6 +69,9 @@ Definition flat_spec (o : op) (own : bool) (F F' G' D : list byte) (ob : obs) : 
   | OClear => if own then F' = [] else r = NA /\ F' = F
   | OPushB s => if own then (r = 0 /\ F' = F) \/ (r = s /\ exists X, zlen X = s /\ F' = F ++ X) else r = NA /\ F' = F
   | OPushF s => if own then (r = 0 /\ F' = F) \/ (r = s /\ exists X, zlen X = s /\ F' = X ++ F) else r = NA /\ F' = F
+  | OXFO n _ _ => if own then r = Z.min n (zlen F) /\ G' = firstn (Z.to_nat r) F /\ F' = skipn (Z.to_nat r) F else r = NA /\ F' = F
+  | OXBO n _ _ => if own then r = Z.min n (zlen F) /\ G' = skipn (Z.to_nat (zlen F - r)) F /\ F' = firstn (Z.to_nat (zlen F - r)) F
+                  else r = NA /\ F' = F
   | OTrunc n =>
       if own then r = zlen F' /\ r <= n /\ (n <= zlen F -> F' = firstn (Z.to_nat n) F) /\ (zlen F <= n -> exists X, F' = F ++ X)
       else r = NA /\ F' = F
@@ -505,6 +509,39 @@ Proof.
       rewrite firstn_app_Z by lia. rewrite firstn_whole by lia. reflexivity.
   - (* clear *)
     destruct own; eexists _, _; (split; [reflexivity|]); simpl; auto. split; [split; constructor|reflexivity].
+  - (* xfo *)
+    destruct A as (A & Asl & Arf).
+    destruct own; [|eexists _, _; split; [reflexivity|]; simpl; auto].
+    destruct (n =? 0) eqn:C.
+    + apply Z.eqb_eq in C. subst n. eexists _, _; split; [reflexivity|]. simpl. split; [auto|].
+      replace (Z.min 0 (zlen (flatT st (live iv)))) with 0 by lia. auto.
+    + pose proof (xf_view_refines st (live iv) n (zlen (live iv)) W A) as G.
+      pose proof (do_xf_ids (cb_view_front (zlen (live iv))) (live iv) n []) as I.
+      pose proof (proj1 (extract_view_enough_slots (zlen (live iv)) (live iv) n ltac:(lia))) as EN.
+      pose proof (zlen_nonneg (live iv)) as Lnn.
+      destruct (do_extract_front (cb_view_front (zlen (live iv))) (live iv) n []) as [|v' a'|v' rem a'] eqn:EX; [contradiction|contradiction|].
+      destruct G as (K & Fa & Fv & W' & Wa & L).
+      assert (LA : zlen a' <= zlen (live iv)).
+      { clear - EX. revert EX. unfold do_extract_front. destruct (n =? 0); [intros E; inversion E; subst; unfold zlen; simpl; lia|].
+        intros E. pose proof (cb_view_len (zlen (live iv)) (live iv) n [] ltac:(unfold zlen; simpl; lia)) as H. rewrite E in H. exact H. }
+      destruct (zlen (live iv) + rf2 + slack <? rf2 + zlen a') eqn:C2; [apply Z.ltb_lt in C2; lia|].
+      replace (rf2 + zlen (live iv) + slack) with (zlen (live iv) + rf2 + slack) by lia. rewrite C2.
+      eexists _, _; split; [reflexivity|]. simpl. split; [auto|]. rewrite Fa, Fv, <- SUM. auto.
+  - (* xbo *)
+    destruct A as (A & Asl & Arf).
+    destruct own; [|eexists _, _; split; [reflexivity|]; simpl; auto].
+    destruct (n =? 0) eqn:C.
+    + apply Z.eqb_eq in C. subst n. eexists _, _; split; [reflexivity|]. simpl. split; [auto|].
+      replace (Z.min 0 (zlen (flatT st (live iv)))) with 0 by lia. rewrite Z.sub_0_r, skipn_whole, firstn_whole by lia. auto.
+    + pose proof (xb_view_refines st (live iv) n (zlen (live iv)) W A) as G.
+      pose proof (do_xb_ids (cb_view_back (zlen (live iv))) (live iv) n []) as I.
+      pose proof (proj2 (extract_view_enough_slots (zlen (live iv)) (live iv) n ltac:(lia))) as EN.
+      pose proof (zlen_nonneg (live iv)) as Lnn.
+      destruct (do_extract_back (cb_view_back (zlen (live iv))) (live iv) n []) as [|v' a'|v' rem a'] eqn:EX; [contradiction|contradiction|].
+      destruct G as (K & Fa & Fv & W' & Wa & L).
+      destruct (rf2 + zlen (live iv) + slack <? rf2 + zlen (live iv)) eqn:C2; [apply Z.ltb_lt in C2; lia|].
+      simpl andb.
+      eexists _, _; split; [reflexivity|]. simpl. split; [auto|]. rewrite Fa, Fv, <- SUM. auto.
 Qed.
 
 (* ---------------------------------------------------------------- sequences *)
